@@ -118,7 +118,12 @@ func oracleC15ApplyRelation(r *Relation, t time.Time) {
 		r.Members[i].Nodes = nil
 	}
 	before := c15CopyRelation(r)
+	shared := r.Updates // another holder of the same update list (a shallow copy of the relation, the caller's variable)
 	err := r.ApplyUpdatesUpTo(t)
+	// the list others hold is not written: only the relation's own members and its own pending list change
+	for i := range before.Updates {
+		vAssert(shared[i] == before.Updates[i])
+	}
 	bad := false
 	for _, u := range before.Updates {
 		if !u.Timestamp.After(t) && u.Index >= len(before.Members) {
